@@ -148,11 +148,11 @@ theorem mem_suggestions (terms : List (List Nat)) (freq : List Nat → Nat) (max
   obtain ⟨t, ht, rfl⟩ := h
   exact ht
 
-/-- Every suggestion is one of the terms `terms_within` produced. -/
-theorem suggest_mem (terms : List (List Nat)) (freq : List Nat → Nat) (limit maxdist : Nat)
-    (r : List (List Nat)) (h : suggest terms freq limit maxdist = .ok r) : ∀ t, t ∈ r → t ∈ terms := by
-  unfold suggest at h
-  cases hl : suggestLoop limit (suggestions terms freq maxdist) [] with
+/-- Every suggestion comes from an item. -/
+theorem suggestItems_mem (items : List (Rat × List Nat)) (limit : Nat) (r : List (List Nat))
+    (h : suggestItems items limit = .ok r) : ∀ t, t ∈ r → ∃ a, a ∈ items ∧ a.2 = t := by
+  unfold suggestItems at h
+  cases hl : suggestLoop limit items [] with
   | error e => rw [hl] at h; cases h
   | ok heap =>
     rw [hl] at h
@@ -164,16 +164,28 @@ theorem suggest_mem (terms : List (List Nat)) (freq : List Nat → Nat) (limit m
     have ha' : a ∈ heap := (mem_sortBy _ a heap).mp ha
     rcases suggestLoop_mem limit _ _ _ hl a ha' with h1 | h1
     · cases h1
-    · exact mem_suggestions terms freq maxdist a h1
+    · exact ⟨a, h1, rfl⟩
+
+/-- With `limit ≥ 1` the call succeeds and returns `min limit |items|` suggestions. -/
+theorem suggestItems_length (items : List (Rat × List Nat)) (limit : Nat) (hl : 0 < limit) :
+    ∃ r, suggestItems items limit = .ok r ∧ r.length = min limit items.length := by
+  obtain ⟨heap, hh, hlen⟩ := suggestLoop_length limit hl items [] (by simp)
+  refine ⟨(sortBy keyLe heap).map (·.2), ?_, ?_⟩
+  · unfold suggestItems; rw [hh]; rfl
+  · rw [List.length_map, length_sortBy, hlen]; simp
+
+/-- Every suggestion is one of the terms `terms_within` produced. -/
+theorem suggest_mem (terms : List (List Nat)) (freq : List Nat → Nat) (limit maxdist : Nat)
+    (r : List (List Nat)) (h : suggest terms freq limit maxdist = .ok r) : ∀ t, t ∈ r → t ∈ terms := by
+  intro t ht
+  obtain ⟨a, ha, rfl⟩ := suggestItems_mem _ limit r h t ht
+  exact mem_suggestions terms freq maxdist a ha
 
 /-- With `limit ≥ 1` the call succeeds and returns `min limit |terms|` suggestions. -/
 theorem suggest_length (terms : List (List Nat)) (freq : List Nat → Nat) (limit maxdist : Nat)
     (hl : 0 < limit) :
     ∃ r, suggest terms freq limit maxdist = .ok r ∧ r.length = min limit terms.length := by
-  obtain ⟨heap, hh, hlen⟩ := suggestLoop_length limit hl (suggestions terms freq maxdist) [] (by simp)
-  refine ⟨(sortBy keyLe heap).map (·.2), ?_, ?_⟩
-  · unfold suggest; rw [hh]; rfl
-  · rw [List.length_map, length_sortBy, hlen]
-    simp [suggestions]
+  obtain ⟨r, h1, h2⟩ := suggestItems_length (suggestions terms freq maxdist) limit hl
+  exact ⟨r, h1, by rw [h2]; simp [suggestions]⟩
 
 end WM.Lev
